@@ -600,6 +600,38 @@ func c19FeedWorker(args []string) int {
 			guard("answersL:"+strings.ReplaceAll(fmt.Sprint(c19Prefix(c)), " ", ","), f)
 		})
 	}
+	// The distributor with MANY logs of which every one fails, in three ways (no
+	// checkpoint at the witness, 500 from the service, connection reset): the
+	// round ends and reports it (whatever is bounded per round - workers, a
+	// channel of errors - is exceeded).
+	if name == "distributor" {
+		for _, how := range []string{"no-checkpoint", "http-500", "conn-reset"} {
+			how := how
+			if skip["many-fail:"+how] {
+				emit("S many-fail:" + how)
+				continue
+			}
+			guard("many-fail:"+how, func() (int, error) {
+				var logs []config.Log
+				cps := map[string][]byte{}
+				for i := 0; i < 12; i++ {
+					origin := fmt.Sprintf("%s/many/%d", c19Origin(name), i)
+					cl, _ := config.NewLog(origin, u.K1.VKey, "http://log.test/")
+					logs = append(logs, cl)
+					if how != "no-checkpoint" {
+						cps[cl.ID] = u.Sign(uni.Body(origin, 3, u.Main.Root(3)), u.K1.Signer, u.W1.CosigSigner)
+					}
+				}
+				tr := &c19DistTransport{answer: func(int, string) string { return how }}
+				d, _ := rest.NewDistributor("http://dist.test", &http.Client{Transport: tr}, logs, u.W1.CosigVerif, &recWitness{cp: cps})
+				err := d.DistributeOnce(context.Background())
+				if err == nil {
+					return tr.n, nil
+				}
+				return tr.n, err
+			})
+		}
+	}
 	// An outage that ends: the feeder in POLLING mode (interval 2 ms) against a
 	// log that answers 500 to its first 60 requests and is healthy afterwards -
 	// whatever the polling loop keeps per failed cycle (a counter, a period, a
@@ -757,6 +789,9 @@ func c19CaseClass(id string) string {
 		var has bool
 		fmt.Sscanf(strings.ReplaceAll(strings.TrimPrefix(id, "hostile:"), ":", " "), "%d %d %t", &si, &hl, &has)
 		return fmt.Sprintf("log-signed-size=%s witness-has-checkpoint=%v", c19SizeClass(c19Sizes[si]), has)
+	}
+	if strings.HasPrefix(id, "many-fail:") {
+		return "every-log-of-12-fails"
 	}
 	if strings.HasPrefix(id, "answers:") || strings.HasPrefix(id, "answersL:") {
 		return "environment-answers"
